@@ -62,9 +62,10 @@ def newRG (src : Nat → Nat) : RG :=
   { maxDepth := (src 0 % 18446744073709551616 % 4294967296) % (Rand.maxDepth - Rand.minDepth + 1) + Rand.minDepth,
     cur := 0, src := src, pos := 1 }
 
-/-- `IncreaseDepth`: saturates at `maxDepth` … -/
-def RG.inc (rg : RG) : RG := if rg.cur ≠ rg.maxDepth then { rg with cur := rg.cur + 1 } else rg
-/-- … `DecreaseDepth` does not know whether the matching increase was saturated -/
+/-- `IncreaseDepth`: unconditional (it used to saturate at `maxDepth`, which made the paired `DecreaseDepth` lower the
+depth: repaired in the repository, former known finding C18-leak) -/
+def RG.inc (rg : RG) : RG := { rg with cur := rg.cur + 1 }
+/-- `DecreaseDepth` -/
 def RG.dec (rg : RG) : RG := if rg.cur ≠ 0 then { rg with cur := rg.cur - 1 } else rg
 
 /-- number of low bits kept by `RandomUint`, from the category (low `probabilityBits` bits) of the first word -/
@@ -241,11 +242,13 @@ def fillFuel (d : Desc) : Nat := (Rand.maxDepth + 3) * (d.insts.size + 1)
 
 /-! ### decidable guards of the termination theorem (`Props/C18.lean`), evaluated per factory item (T3)
 
-`IncreaseDepth` saturates at `maxDepth` but `DecreaseDepth` always decrements, so an increase performed at the limit
-*lowers* the depth afterwards.  `capFree` excludes exactly that: every body that can run right after a saturating
-increase (elements of tuples, the type of a recursive field) is `quiet` — at the limit it reaches no further
-`IncreaseDepth` site.  `fillRanked` is a rank certificate for the references that do not increase the depth
-(plain struct fields, union variants): it fails on recursion through a union, whose `FillRandom` never increases it. -/
+`fillRanked` is a rank certificate for the references that pass no `IncreaseDepth` site (plain struct fields, union
+variants): it fails on recursion through a union, whose `FillRandom` never increases the depth.  References through an
+`IncreaseDepth` site (array elements, recursive fields) lower `maxDepth − curDepth` instead — until the limit is
+reached; from there on all random sizes, masks and union indices are 0 and what is still followed (unconditional
+fields, first variants, elements of tuples) must be a finite recursion of its own: `satFinite`, required by `satOk` of
+every body that can be entered at the limit (elements of tuples, the type of a recursive field).  It fails for
+non-productive types such as `loopA x:loopA` (lead L8). -/
 
 /-- conditional on a bit of an earlier `#` field of this struct: at the depth limit that field is 0, the field absent -/
 def maskedByLocalU32 (d : Desc) (all : List Field) (f : Field) : Bool :=
@@ -256,31 +259,31 @@ def maskedByLocalU32 (d : Desc) (all : List Field) (f : Field) : Bool :=
     | none => false
   | _ => false
 
-def quietFields (d : Desc) (q : Nat → Bool) (gx : Nat → FieldX) (all : List Field) : List Field → Nat → Bool
+def satFields (d : Desc) (q : Nat → Bool) (gx : Nat → FieldX) (all : List Field) : List Field → Nat → Bool
   | [], _ => true
   | f :: fs, i =>
-    (f.isBit || maskedByLocalU32 d all f || (!(gx i).recursive && ((gx i).drawn || q f.ty))) &&
-    quietFields d q gx all fs (i + 1)
+    (f.isBit || maskedByLocalU32 d all f || (gx i).drawn || q f.ty) &&
+    satFields d q gx all fs (i + 1)
 
-/-- `FillRandom` of `ty`, started at the depth limit, reaches no `IncreaseDepth` site (and is a finite recursion) -/
-def quiet (d : Desc) (gi : GenInfo) : Nat → Nat → Bool
+/-- `FillRandom` of `ty`, started at (or beyond) the depth limit, is a finite recursion -/
+def satFinite (d : Desc) (gi : GenInfo) : Nat → Nat → Bool
   | 0, _ => false
   | n + 1, ty =>
     match d.get? ty with
     | none => true
     | some (.prim _) => true
-    | some (.struct s) => s.originTL2 || quietFields d (quiet d gi n) (structGx gi ty s) s.fields s.fields 0
-    | some (.union u) => (match u.variants with | (vi, _) :: _ => quiet d gi n vi | [] => true)
-    | some (.array _) => false
-    | some (.dict _) => false
+    | some (.struct s) => s.originTL2 || satFields d (satFinite d gi n) (structGx gi ty s) s.fields s.fields 0
+    | some (.union u) => (match u.variants with | (vi, _) :: _ => satFinite d gi n vi | [] => true)
+    | some (.array a) => !a.isTuple || satFinite d gi n a.elem.ty      -- a vector drawn at the limit is empty
+    | some (.dict _) => true
 
-def capFreeFields (q : Nat → Bool) (gx : Nat → FieldX) : List Field → Nat → Bool
+def satOkFields (q : Nat → Bool) (gx : Nat → FieldX) : List Field → Nat → Bool
   | [], _ => true
-  | f :: fs, i => (f.isBit || !(gx i).recursive || (gx i).drawn || q f.ty) && capFreeFields q gx fs (i + 1)
+  | f :: fs, i => (f.isBit || !(gx i).recursive || (gx i).drawn || q f.ty) && satOkFields q gx fs (i + 1)
 
-def Inst.capFree (d : Desc) (gi : GenInfo) (ty : Nat) : Inst → Bool
-  | .struct s => capFreeFields (quiet d gi (d.insts.size + 1)) (structGx gi ty s) s.fields 0
-  | .array a => !a.isTuple || quiet d gi (d.insts.size + 1) a.elem.ty
+def Inst.satOk (d : Desc) (gi : GenInfo) (ty : Nat) : Inst → Bool
+  | .struct s => satOkFields (satFinite d gi (d.insts.size + 1)) (structGx gi ty s) s.fields 0
+  | .array a => !a.isTuple || satFinite d gi (d.insts.size + 1) a.elem.ty
   | _ => true
 
 def fieldsRanked (rk : List Nat) (r : Nat) (gx : Nat → FieldX) : List Field → Nat → Bool
@@ -300,7 +303,7 @@ def Desc.allOnI (d : Desc) (S : Nat → Bool) (p : Nat → Inst → Bool) : Bool
 
 /-- the guard of `fill_terminates`: ranks bounded by the number of instances, rank certificate, no saturating increase -/
 def Desc.fillGuard (d : Desc) (gi : GenInfo) (rk : List Nat) (S : Nat → Bool) : Bool :=
-  d.allOnI S (fun i _ => decide (rkAt rk i ≤ d.insts.size)) && d.allOnI S (Inst.fillRanked gi rk) && d.allOnI S (Inst.capFree d gi)
+  d.allOnI S (fun i _ => decide (rkAt rk i ≤ d.insts.size)) && d.allOnI S (Inst.fillRanked gi rk) && d.allOnI S (Inst.satOk d gi)
 
 def fieldsRankStep (rk : List Nat) (gx : Nat → FieldX) : List Field → Nat → Nat → Nat
   | [], _, m => m
